@@ -155,6 +155,38 @@ def loc(span):
 # ------------------------------------------------------------------ Program / Body
 
 
+_KP = None
+
+
+def _tail2(name):
+    """last two path segments outside generic brackets (module-move tolerant key)"""
+    depth = 0
+    cut = []
+    for i, ch in enumerate(name):
+        if ch in "<([":
+            depth += 1
+        elif ch in ">)]":
+            depth -= 1
+        elif ch == ":" and depth == 0 and i + 1 < len(name) and name[i + 1] == ":":
+            cut.append(i)
+    return name[cut[-2] + 2:] if len(cut) >= 2 else name
+
+
+def _known_params():
+    global _KP
+    if _KP is None:
+        import json as _json
+        import os as _os
+        try:
+            _KP = _json.load(open(_os.path.join(_os.path.dirname(_os.path.abspath(__file__)), "known_params.json")))
+        except OSError:
+            _KP = {}
+        for k in list(_KP):
+            if not k.startswith("<"):
+                _KP.setdefault("~" + _tail2(k), _KP[k])
+    return _KP
+
+
 class Body:
     def __init__(self, j, prog):
         self.j = j
@@ -338,10 +370,17 @@ class Body:
         return self.locals[l].get("name")
 
     def param_index_by_name(self, name):
+        """local index of the parameter called `name`.  A parameter that was merely renamed is re-found through the frozen baseline
+        signature (rules/known_params.json): same position, same type, same arity.  Otherwise the anchor is missing (fail closed)."""
         for l in range(1, self.arg_count + 1):
             if self.locals[l].get("name") == name:
                 return l
-        return None
+        base = _known_params().get(self.name) or _known_params().get("~" + _tail2(self.name))
+        if base and len(base) == self.arg_count:
+            for i, (pn, ty) in enumerate(base):
+                if pn == name and self.locals[i + 1]["ty"] == ty and self.locals[i + 1].get("name") not in [q for q, _ in base]:
+                    return i + 1
+        raise AnchorMissing("parameter `%s` of %s" % (name, self.name))
 
     # ---- pretty printer
     def dump(self, live_only=False):
@@ -583,6 +622,10 @@ def trace(body, op_or_place, transparent=is_transparent, through_try=True, throu
             if all(e["k"] == "field" and e.get("owner") in wrappers for e in fields):
                 from_local(l, neg, via, d)
                 return
+            # `(x as Some).0.1`: a tuple inside a wrapper payload — the wrapper is transparent, the tuple field is handled below
+            if any(e["k"] == "field" and e.get("owner") in wrappers for e in fields) and \
+                    all(e["k"] == "field" and e.get("owner") in wrappers + ("(tuple)",) for e in fields):
+                fields = [e for e in fields if e.get("owner") == "(tuple)"]
             if all(e["k"] == "field" and e.get("owner") == "(tuple)" for e in fields) and not body.is_param(l):
                 # field-sensitive through locally built tuples: `_t = (a, b); .. _t.1` -> b
                 ds = body.defs().get(l, [])
@@ -595,16 +638,23 @@ def trace(body, op_or_place, transparent=is_transparent, through_try=True, throu
                     return
                 from_local(l, neg, via, d)
                 return
+            # upvar read of an INLINED closure: the environment local was assigned `&closure` where closure = closure{ops}
+            if fields and fields[0].get("upvar") and not (l == 1 and body.kind == "Closure"):
+                cl_ops = _closure_ops(body, l)
+                if cl_ops is not None and fields[0]["i"] < len(cl_ops):
+                    if len(fields) == 1:
+                        from_op(cl_ops[fields[0]["i"]], neg, via, d - 1)
+                        return
+                    cop = cl_ops[fields[0]["i"]]
+                    if cop.get("k") in ("copy", "move"):
+                        # a field of the captured value: continue on the captured place extended by the remaining projection
+                        k0 = proj.index(fields[0])
+                        from_place({"l": cop["pl"]["l"], "p": cop["pl"]["p"] + proj[k0 + 1:]}, neg, via, d - 1)
+                        return
             if through_fields:
                 leaves.append(Leaf("field", None, pl, neg, via))
                 from_local(l, neg, via, d)
                 return
-            # upvar read of an INLINED closure: the environment local was assigned `&closure` where closure = closure{ops}
-            if fields and fields[0].get("upvar") and not (l == 1 and body.kind == "Closure"):
-                cl_ops = _closure_ops(body, l)
-                if cl_ops is not None and fields[0]["i"] < len(cl_ops) and len(fields) == 1:
-                    from_op(cl_ops[fields[0]["i"]], neg, via, d - 1)
-                    return
             # upvar of a closure body: _1 is the closure environment
             if l == 1 and body.kind == "Closure" and any(e.get("upvar") for e in fields):
                 leaves.append(Leaf("upvar", None, pl, neg, via))
@@ -879,9 +929,31 @@ def guard_edges(body, prog, pred):
 # a local) are tracked; every other switch keeps all its edges.
 
 
+def _payload_read(body, op, tags):
+    """`(X as V).0` read of a tracked local X whose payload is a bool -> (X, vi) else None"""
+    if op.get("k") not in ("copy", "move"):
+        return None
+    pl = op["pl"]
+    if pl["l"] not in tags or not _has_bool_payload(body.locals[pl["l"]]["ty"]):
+        return None
+    pr = [e for e in pl["p"] if e["k"] != "deref"]
+    if len(pr) == 2 and pr[0]["k"] == "downcast" and pr[1]["k"] == "field" and pr[1].get("i") == 0:
+        return (pl["l"], pr[0]["vi"])
+    if len(pr) == 1 and pr[0]["k"] == "field" and pr[0].get("i") == 0 and pr[0].get("vi") is not None:
+        return (pl["l"], pr[0]["vi"])
+    return None
+
+
+def _has_bool_payload(ty):
+    return "<bool" in ty or ", bool>" in ty
+
+
 def tracked_flags(body):
+    """bool locals whose every definition is a literal, a copy of such a local, or the bool payload of a tracked
+    Option/Result/ControlFlow local (`let up_to_date = helper()?` where the inlined helper returns Ok(true) / Ok(false))"""
     if getattr(body, "_flags", None) is not None:
         return body._flags
+    tags = tracked_tags(body)[0]
     cand = set()
     for l, decl in enumerate(body.locals):
         if decl["ty"] != "bool" or body.is_param(l) or l == 0:
@@ -890,22 +962,25 @@ def tracked_flags(body):
         if not ds:
             continue
         cand.add(l)
+    # a local is worth tracking when at least one of its definitions gives a known value (a literal, a copy of a tracked flag, the
+    # bool payload of a tracked tag local); its other definitions (a call result, a comparison) make it unknown on that path
     changed = True
     while changed:
         changed = False
         for l in list(cand):
+            useful = False
             for rec in body.defs().get(l, []):
-                ok = False
-                if rec[0] == "assign" and rec[3]["rv"]["k"] == "use":
+                if rec[0] == "assign" and not rec[3]["lhs"]["p"] and rec[3]["rv"]["k"] == "use":
                     op = rec[3]["rv"]["op"]
                     if op["k"] == "const" and op_const(op) in ("true", "false"):
-                        ok = True
+                        useful = True
                     elif op["k"] in ("copy", "move") and not op["pl"]["p"] and op["pl"]["l"] in cand:
-                        ok = True
-                if not ok:
-                    cand.discard(l)
-                    changed = True
-                    break
+                        useful = True
+                    elif _payload_read(body, op, tags) is not None:
+                        useful = True
+            if not useful:
+                cand.discard(l)
+                changed = True
     body._flags = cand
     return cand
 
@@ -914,6 +989,7 @@ TAG_ADTS = {"std::option::Option": {"None": 0, "Some": 1}, "std::result::Result"
             "std::ops::ControlFlow": {"Continue": 0, "Break": 1}}
 # Try::branch maps the variant of its argument: Ok/Some -> Continue(0), Err/None -> Break(1)
 BRANCH_MAP = {("std::result::Result", 0): 0, ("std::result::Result", 1): 1, ("std::option::Option", 1): 0, ("std::option::Option", 0): 1}
+IDENT_RESULT = {("std::result::Result", 0): 0, ("std::result::Result", 1): 1}
 
 
 # value-preserving conversions between Option and Result: (source adt, source variant index) -> destination variant index
@@ -921,10 +997,25 @@ TAG_CONVERSIONS = {
     "std::option::Option::<T>::ok_or": {("std::option::Option", 1): 0, ("std::option::Option", 0): 1},
     "std::option::Option::<T>::ok_or_else": {("std::option::Option", 1): 0, ("std::option::Option", 0): 1},
     "std::result::Result::<T, E>::ok": {("std::result::Result", 0): 1, ("std::result::Result", 1): 0},
-    "std::result::Result::<T, E>::map_err": {("std::result::Result", 0): 0, ("std::result::Result", 1): 1},
-    "std::result::Result::<T, E>::map": {("std::result::Result", 0): 0, ("std::result::Result", 1): 1},
+    "std::result::Result::<T, E>::map_err": IDENT_RESULT,
+    "std::result::Result::<T, E>::map": IDENT_RESULT,
     "std::option::Option::<T>::map": {("std::option::Option", 0): 0, ("std::option::Option", 1): 1},
 }
+# conversions that also keep the success payload itself
+PAYLOAD_KEEPING = ("std::option::Option::<T>::ok_or", "std::option::Option::<T>::ok_or_else", "std::result::Result::<T, E>::ok",
+                   "std::result::Result::<T, E>::map_err")
+
+
+def _tag_conversion(term):
+    """variant mapping of a call whose result's variant is determined by the variant of argument 0, or None"""
+    if is_try_branch(term):
+        return BRANCH_MAP, True
+    n = callee_name(term)
+    if n in TAG_CONVERSIONS:
+        return TAG_CONVERSIONS[n], n in PAYLOAD_KEEPING
+    if is_err_decorator(term):
+        return IDENT_RESULT, True       # change_context / attach_printable ..: same variant, same success payload
+    return None, False
 
 
 def tracked_tags(body):
@@ -943,12 +1034,17 @@ def tracked_tags(body):
             cand[l] = adt
     # every whole-local definition either determines the variant (aggregate, move of a tracked local, Try::branch / conversion of
     # a tracked local, from_residual) or makes it unknown (None) — unknown definitions do not stop the tracking of the local
+    # ... or whose variant is learnt from a `match` on it (discriminant read + switch)
+    matched = set()
+    for bb, si, st in body.stmts(live_only=False):
+        if st["k"] == "assign" and st["rv"]["k"] == "discriminant" and not st["rv"]["pl"]["p"]:
+            matched.add(st["rv"]["pl"]["l"])
     for l in list(cand):
         ds = body.defs().get(l, [])
         if not ds or not any(r[0] in ("assign", "call") for r in ds):
             del cand[l]
             continue
-        useful = False
+        useful = l in matched
         for rec in ds:
             if rec[0] == "assign":
                 rv = rec[3]["rv"]
@@ -956,7 +1052,7 @@ def tracked_tags(body):
                     useful = True
                 elif rv["k"] == "use" and rv["op"]["k"] in ("copy", "move") and not rv["op"]["pl"]["p"]:
                     useful = True
-            elif rec[0] == "call" and (is_try_branch(rec[2]) or is_from_residual(rec[2]) or callee_name(rec[2]) in TAG_CONVERSIONS):
+            elif rec[0] == "call" and (is_from_residual(rec[2]) or _tag_conversion(rec[2])[0] is not None):
                 useful = True
         if not useful:
             del cand[l]
@@ -971,20 +1067,140 @@ def tracked_tags(body):
     return body._tags
 
 
+class _Slots:
+    """environment layout of explore(): one slot per tracked flag / tag / bool payload of a tag local / discriminant temp"""
+
+    def __init__(self, body):
+        tags, discr = tracked_tags(body)
+        flags = sorted(tracked_flags(body))
+        self.tags = tags
+        self.idx, self.tidx, self.pidx, self.didx = {}, {}, {}, {}
+        n = 0
+        for l in flags:
+            self.idx[l] = n; n += 1
+        for l in sorted(tags):
+            self.tidx[l] = n; n += 1
+        for l in sorted(tags):
+            if tags[l] in TAG_ADTS and _has_bool_payload(body.locals[l]["ty"]):
+                self.pidx[l] = n; n += 1
+        for l in sorted(discr):
+            self.didx[l] = n; n += 1
+        self.n = n
+
+
+def _slots(body):
+    if getattr(body, "_slots", None) is None:
+        body._slots = _Slots(body)
+    return body._slots
+
+
+def _tracked_liveness(body, S):
+    """per block: the env slots whose local is dead on entry (nobody reads the value any more): forgetting them keeps the
+    product state space small"""
+    if getattr(body, "_tlive", None) is not None:
+        return body._tlive
+    tracked = set(S.idx) | set(S.tidx) | set(S.didx)
+    nb = len(body.blocks)
+    gen = [set() for _ in range(nb)]
+    kill = [set() for _ in range(nb)]
+
+    def reads_op(op, acc):
+        # any read of a tracked local (also through a projection: the payload of a tag local)
+        if op and op.get("k") in ("copy", "move") and op["pl"]["l"] in tracked:
+            acc.add(op["pl"]["l"])
+
+    for bb, blk in enumerate(body.blocks):
+        if blk["cleanup"]:
+            continue
+        g, k = set(), set()
+        t = blk["term"]
+        if t["k"] == "switch":
+            reads_op(t["discr"], g)
+        elif t["k"] == "call":
+            if not t["dest"]["p"] and t["dest"]["l"] in tracked:
+                k.add(t["dest"]["l"])
+            r = set()
+            if t["args"]:
+                reads_op(t["args"][0], r)
+            g = (g - k) | r
+        for st in reversed(blk["stmts"]):
+            if st["k"] != "assign":
+                continue
+            r = set()
+            rv = st["rv"]
+            if rv["k"] == "use":
+                reads_op(rv["op"], r)
+            elif rv["k"] == "discriminant" and rv["pl"]["l"] in tracked:
+                r.add(rv["pl"]["l"])
+            elif rv["k"] == "aggregate":
+                for o in rv["ops"]:
+                    reads_op(o, r)
+            if not st["lhs"]["p"] and st["lhs"]["l"] in tracked:
+                w = st["lhs"]["l"]
+                g.discard(w)
+                k.add(w)
+            g |= r
+            k -= r
+        gen[bb], kill[bb] = g, k
+    live_in = [set(g) for g in gen]
+    changed = True
+    while changed:
+        changed = False
+        for bb in range(nb - 1, -1, -1):
+            if body.blocks[bb]["cleanup"]:
+                continue
+            out = set()
+            for (s_, lab) in body.raw_succs(bb):
+                if not body.blocks[s_]["cleanup"]:
+                    out |= live_in[s_]
+            new = gen[bb] | (out - kill[bb])
+            if new != live_in[bb]:
+                live_in[bb] = new
+                changed = True
+    res = []
+    for bb in range(nb):
+        dead = []
+        for l in tracked:
+            if l not in live_in[bb]:
+                for m in (S.idx, S.tidx, S.pidx, S.didx):
+                    if l in m:
+                        dead.append(m[l])
+        res.append(tuple(sorted(dead)))
+    body._tlive = res
+    return res
+
+
+def _discr_source(body, dl, tidx):
+    """(tracked local whose discriminant `dl` holds, {discriminant value: variant index}) when unambiguous"""
+    cache = body.__dict__.setdefault("_dsrc", {})
+    if dl not in cache:
+        srcs = {r[3]["rv"]["pl"]["l"] for r in body.defs().get(dl, [])}
+        res = None
+        if len(srcs) == 1:
+            src = next(iter(srcs))
+            adt = tracked_tags(body)[0].get(src)
+            if adt in TAG_ADTS:
+                res = (src, {v: v for v in TAG_ADTS[adt].values()})
+            elif adt is not None and body.prog is not None and adt in body.prog.adts:
+                res = (src, {v["discr"]: v["vi"] for v in body.prog.adts[adt]["variants"]})
+        cache[dl] = res
+    r = cache[dl]
+    return r if r is not None and r[0] in tidx else None
+
+
+SUCCESS_VI = {"std::result::Result": 0, "std::option::Option": 1, "std::ops::ControlFlow": 0}
+
+
 def explore(body, cut=None, mark_edges=None, start_env=None, start_blocks=None):
     """Flag- and tag-sensitive exploration from the entry.
     Returns (visited_blocks, marked_blocks, prev) where marked_blocks are the blocks visited on a
     path that took one of `mark_edges` before; prev maps state -> predecessor state (for witnesses).
-    Tracked per path: constant-only bool locals, and the variant of Option/Result/ControlFlow locals built from aggregates."""
-    flags = sorted(tracked_flags(body))
-    tags, discr = tracked_tags(body)
-    tagl = sorted(tags)
-    discl = sorted(discr)
-    idx = {l: i for i, l in enumerate(flags)}
-    tidx = {l: len(flags) + i for i, l in enumerate(tagl)}
-    didx = {l: len(flags) + len(tagl) + i for i, l in enumerate(discl)}
-    n = len(flags) + len(tagl) + len(discl)
-    env0 = tuple([None] * n) if start_env is None else start_env
+    Tracked per path: constant-only bool locals, the variant of Option/Result/ControlFlow/crate-enum locals (set by aggregates,
+    conversions, `?`, and learnt from the switch edges taken), and the constant bool payload of such locals."""
+    S = _slots(body)
+    tags = S.tags
+    idx, tidx, pidx, didx = S.idx, S.tidx, S.pidx, S.didx
+    env0 = tuple([None] * S.n) if start_env is None else start_env
     if start_blocks is None:
         start = (0, env0, False)
         prev = {start: None}
@@ -999,6 +1215,17 @@ def explore(body, cut=None, mark_edges=None, start_env=None, start_blocks=None):
     visited = set()
     marked = set()
     budget = 400000
+    dead_at = _tracked_liveness(body, S)
+
+    def op_bool(op, e):
+        """constant truth value of an operand, if known"""
+        if op["k"] == "const":
+            c = op_const(op)
+            return True if c == "true" else False if c == "false" else None
+        if op["k"] in ("copy", "move") and not op["pl"]["p"] and op["pl"]["l"] in idx:
+            return e[idx[op["pl"]["l"]]]
+        return None
+
     while dq:
         st = dq.popleft()
         budget -= 1
@@ -1021,18 +1248,36 @@ def explore(body, cut=None, mark_edges=None, start_env=None, start_blocks=None):
             l = s_["lhs"]["l"]
             rv = s_["rv"]
             if l in idx:
-                op = rv["op"]
-                if op["k"] == "const":
-                    e[idx[l]] = (op_const(op) == "true")
+                op = rv.get("op") if rv["k"] == "use" else None
+                if op is None:
+                    e[idx[l]] = None
+                elif op["k"] == "const":
+                    c_ = op_const(op)
+                    e[idx[l]] = True if c_ == "true" else False if c_ == "false" else None
+                elif op["k"] not in ("copy", "move"):
+                    e[idx[l]] = None
+                elif not op["pl"]["p"]:
+                    e[idx[l]] = e[idx[op["pl"]["l"]]] if op["pl"]["l"] in idx else None
                 else:
-                    e[idx[l]] = e[idx[op["pl"]["l"]]]
+                    pr = _payload_read(body, op, tags)
+                    val = None
+                    if pr is not None and pr[0] in pidx and e[tidx[pr[0]]] == pr[1]:
+                        val = e[pidx[pr[0]]]
+                    e[idx[l]] = val
             elif l in tidx:
                 if rv["k"] == "aggregate" and rv["agg"]["k"] == "adt" and rv["agg"]["adt"] == tags[l]:
                     e[tidx[l]] = rv["agg"]["vi"]
+                    if l in pidx:
+                        e[pidx[l]] = op_bool(rv["ops"][0], e) if len(rv["ops"]) == 1 and rv["agg"]["vi"] == SUCCESS_VI.get(tags[l]) else None
                 elif rv["k"] == "use" and rv["op"]["k"] in ("copy", "move") and not rv["op"]["pl"]["p"] and rv["op"]["pl"]["l"] in tidx:
-                    e[tidx[l]] = e[tidx[rv["op"]["pl"]["l"]]]
+                    sl = rv["op"]["pl"]["l"]
+                    e[tidx[l]] = e[tidx[sl]]
+                    if l in pidx:
+                        e[pidx[l]] = e[pidx[sl]] if sl in pidx else None
                 else:
                     e[tidx[l]] = None
+                    if l in pidx:
+                        e[pidx[l]] = None
             elif l in didx:
                 vi = e[tidx[rv["pl"]["l"]]]
                 adt = tags[rv["pl"]["l"]]
@@ -1042,17 +1287,24 @@ def explore(body, cut=None, mark_edges=None, start_env=None, start_blocks=None):
                 e[didx[l]] = vi
         t = blk["term"]
         known = None
+        if t["k"] == "call" and not t["dest"]["p"] and t["dest"]["l"] in idx:
+            e[idx[t["dest"]["l"]]] = None
         if t["k"] == "call" and not t["dest"]["p"] and t["dest"]["l"] in tidx:
             dl = t["dest"]["l"]
             p = op_place(t["args"][0]) if t["args"] else None
+            newp = None
             if is_from_residual(t):
                 e[tidx[dl]] = {"std::result::Result": 1, "std::option::Option": 0}.get(tags[dl])
-            elif p is not None and not p["p"] and p["l"] in tidx and (is_try_branch(t) or callee_name(t) in TAG_CONVERSIONS):
+            elif p is not None and not p["p"] and p["l"] in tidx and _tag_conversion(t)[0] is not None:
+                conv, keeps = _tag_conversion(t)
                 src = e[tidx[p["l"]]]
-                conv = BRANCH_MAP if is_try_branch(t) else TAG_CONVERSIONS.get(callee_name(t), {})
                 e[tidx[dl]] = conv.get((tags[p["l"]], src)) if src is not None else None
+                if keeps and p["l"] in pidx and src == SUCCESS_VI.get(tags[p["l"]]):
+                    newp = e[pidx[p["l"]]]
             else:
                 e[tidx[dl]] = None
+            if dl in pidx:
+                e[pidx[dl]] = newp
         if t["k"] == "switch":
             op = t["discr"]
             if op["k"] in ("copy", "move") and not op["pl"]["p"]:
@@ -1063,6 +1315,11 @@ def explore(body, cut=None, mark_edges=None, start_env=None, start_blocks=None):
                 elif dl in didx:
                     known = e[didx[dl]]
         env2 = tuple(e)
+        learn = None
+        if t["k"] == "switch" and known is None:
+            op = t["discr"]
+            if op["k"] in ("copy", "move") and not op["pl"]["p"] and op["pl"]["l"] in didx:
+                learn = _discr_source(body, op["pl"]["l"], tidx)
         for i, (s, lab) in enumerate(body.raw_succs(bb)):
             if body.blocks[s]["cleanup"]:
                 continue
@@ -1074,8 +1331,29 @@ def explore(body, cut=None, mark_edges=None, start_env=None, start_blocks=None):
                     continue
                 if lab[0] == "otherwise" and val in lab[1]:
                     continue
+            env3 = env2
+            if learn is not None and lab is not None:
+                # taking this edge tells which variant the scrutinee holds (until it is reassigned)
+                src, all_discr = learn
+                v = None
+                if lab[0] == "val":
+                    v = lab[1]
+                elif lab[0] == "otherwise":
+                    rest = [d for d in all_discr if d not in lab[1]]
+                    v = rest[0] if len(rest) == 1 else None
+                if v is not None and v in all_discr:
+                    e3 = list(env2)
+                    e3[didx[t["discr"]["pl"]["l"]]] = v
+                    e3[tidx[src]] = all_discr[v]
+                    env3 = tuple(e3)
             mk2 = mk or bool(mark_edges and (bb, i) in mark_edges)
-            ns = (s, env2, mk2)
+            dd = dead_at[s]
+            if dd:
+                e4 = list(env3)
+                for j in dd:
+                    e4[j] = None
+                env3 = tuple(e4)
+            ns = (s, env3, mk2)
             if ns not in prev:
                 prev[ns] = st
                 dq.append(ns)
